@@ -86,9 +86,13 @@ func VerifRun_C10h() {
 			return s
 		}
 		again = func() {
-			ret2, _ := l.TextDocumentComplete(ctx, lsp.CompletionParams{TextDocumentPositionParams: c10hPos(other, 0, 1)})
+			ret2, _ := l.TextDocumentComplete(ctx, lsp.CompletionParams{TextDocumentPositionParams: c10hPos(uri, 2, 2)})
 			r2, _ := ret2.(CompletionListTmp)
-			shared = len(r.Items) > 0 && len(r2.Items) > 0 && &r.Items[0] == &r2.Items[0]
+			// (a third request with a shorter answer: a reused buffer is only re-allocated when it is too small)
+			ret3, _ := l.TextDocumentComplete(ctx, lsp.CompletionParams{TextDocumentPositionParams: c10hPos(uri, 1, 2)})
+			r3, _ := ret3.(CompletionListTmp)
+			alias := func(a, b []CompletionItemTmp) bool { return len(a) > 0 && len(b) > 0 && &a[0] == &b[0] }
+			shared = alias(r.Items, r2.Items) || alias(r2.Items, r3.Items) || alias(r.Items, r3.Items)
 		}
 	case 4:
 		r, _ := l.TextDocumentHighlight(ctx, c10hPos(uri, 1, 0))
